@@ -464,6 +464,9 @@ def apply_op(part, o, ref, op, state, det, cond_base):
         elif op[0] == 'pickup':
             _, src, attr, dst, sc, off = op
             site = 'PickupManager.add'
+            if attr == 'thickness' and any(sv[0] == dst + 1 for sv in ref.solves):
+                part.count('inadmissible-overconstrained-histories')
+                return False
             o.pickups.add(src, attr, dst, scale=sc, offset=off)
             ref.pickups.append((src, attr, dst, sc, off))
             # adding a pickup applies it once
@@ -475,6 +478,9 @@ def apply_op(part, o, ref, op, state, det, cond_base):
                 ref.set_thickness(sc * ref.t[src] + off, dst)
         elif op[0] == 'solve':
             site = 'SolveManager.add'
+            if any(pk[1] == 'thickness' and pk[2] == op[1] - 1 for pk in ref.pickups):
+                part.count('inadmissible-overconstrained-histories')
+                return False        # a solve moving a thickness that is also a pickup target: over-constrained by construction
             o.solves.add('marginal_ray_height', op[1], op[2])
             ref.solves.append((op[1], op[2]))
             return check_solves(part, o, ref, [(op[1], op[2])], site, cond, det, state)
